@@ -371,6 +371,26 @@ Theorem C02_generated_verifyRetryCertStartingBlock_rule : forall (panicv : GoNum
   then GoNum.EFail else GoNum.EOK.
 Proof. exact GenAgreeLimitCert.verifyRetryCertStartingBlock_closed_form. Qed.
 
+(* which range a certificate is built over: GetCertificateBuildParamsInternal, GENERATED from flow_base.go on every run, reads the
+   syncer's last processed block and the last sent header, starts one block after what getLastSentBlockAndRetryCount reports
+   (the translated function of C02_generated_getLastSentBlockAndRetryCount_is_model), refuses when there is no new block, reads the
+   events of exactly (that block .. last processed) and hands the certificate - retry count and last sent header included - to the
+   size cut (the model's `build`: prev_to + 1 .. synced, then the cut) *)
+From Verif Require Gen.GenGetParams Proofs.GenAgreeGetParams.
+Theorem C02_generated_GetParams_rule : forall lastProcessedBlock lastSentCertificateHeader lastSentBlockAndRetryCount bridgesAndClaims cut (ct : N),
+  GenAgreeGetParams.gen_get_params lastProcessedBlock lastSentCertificateHeader lastSentBlockAndRetryCount bridgesAndClaims cut ct =
+  let '(synced, e1) := lastProcessedBlock in
+  if negb (GoNum.err_eqb e1 GoNum.EOK) then (None, GoNum.err_wrap e1) else
+  let '(last, e2) := lastSentCertificateHeader in
+  if negb (GoNum.err_eqb e2 GoNum.EOK) then (None, e2) else
+  let '(prev, rc) := lastSentBlockAndRetryCount last in
+  if (synced <=? prev)%N then (None, GoNum.EFail) else
+  let '(bs, cs, e3) := bridgesAndClaims (GoNum.u64_add prev 1) synced in
+  if negb (GoNum.err_eqb e3 GoNum.EOK) then (None, e3) else
+  let '(r, e4) := cut (Some (GenAgreeGetParams.full prev synced bs cs rc last ct)) in
+  if negb (GoNum.err_eqb e4 GoNum.EOK) then (None, GoNum.err_wrap e4) else (r, GoNum.EOK).
+Proof. exact GenAgreeGetParams.GetParams_rule. Qed.
+
 Print Assumptions C02_Inv_init.
 Print Assumptions C02_step_preserves_Inv.
 Print Assumptions C02_reachable_Inv.
@@ -395,3 +415,4 @@ Print Assumptions C02_generated_getNextHeightAndPreviousLER_is_model.
 Print Assumptions C02_generated_decides_height_and_previous_root.
 Print Assumptions C02_generated_decides_first_block_and_retry.
 Print Assumptions C02_generated_verifyRetryCertStartingBlock_rule.
+Print Assumptions C02_generated_GetParams_rule.
